@@ -216,6 +216,27 @@ theorem pattern_result_independent2 (net : Net) (order : List Nat) (strip : Bool
       ∀ q, q < net.sNodes.length → (r.rows.getD q []).getD p 0 = (r'.rows.getD q []).getD p' 0 :=
   simArr_indep codec2 ln2 ofCode2 code2 4 semW2 semL2n lv2 lanes2 Gen.kindPrefixes net order strip a a' hwf hS hwf' hS' p p' hp hp' hcol
 
+/-! ## (2e) `strip_forks` does not change the result (C06 through the data path)
+
+Domain hypotheses as in C06 / C01 `cycle_strip_irrelevant`: `forksOKB` (fork conventions of the order), `capDriversB` (the order contains
+the driver of every captured line; `topological_order()` lists every node) — both evaluated on every generated circuit (C01 `cycle_tie`).
+With this, (2b) holds verbatim for the simulator built with `strip_forks=True`. -/
+
+theorem strip_forks_irrelevant_patterns8 (net : Net) (order : List Nat) (hwf : net.wfB = true) (ho : orderOKB net order = true)
+    (hf : forksOKB net order = true) (hcov : capDriversB net order = true)
+    (a : Arr Nat) (ha : a.wf = true) (hS : a.lead = [net.sNodes.length]) : sim8 net order true a = sim8 net order false a :=
+  simArr_strip codec8 ln8 V3.ofCode V3.code 0 semW8 semL8 lv8 lanes8 Gen.kindPrefixes net order hwf ho hf hcov default semL8_buf1 a ha hS
+
+theorem strip_forks_irrelevant_patterns4 (net : Net) (order : List Nat) (hwf : net.wfB = true) (ho : orderOKB net order = true)
+    (hf : forksOKB net order = true) (hcov : capDriversB net order = true)
+    (a : Arr Nat) (ha : a.wf = true) (hS : a.lead = [net.sNodes.length]) : sim4 net order true a = sim4 net order false a :=
+  simArr_strip codec4 ln4 ofCode4 V2.code 4 semW4 semL4 lv4 lanes4 Gen.kindPrefixes net order hwf ho hf hcov default semL4_buf1 a ha hS
+
+theorem strip_forks_irrelevant_patterns2 (net : Net) (order : List Nat) (hwf : net.wfB = true) (ho : orderOKB net order = true)
+    (hf : forksOKB net order = true) (hcov : capDriversB net order = true)
+    (a : Arr Nat) (ha : a.wf = true) (hS : a.lead = [net.sNodes.length]) : sim2 net order true a = sim2 net order false a :=
+  simArr_strip codec2 ln2 ofCode2 code2 4 semW2 semL2n lv2 lanes2 Gen.kindPrefixes net order hwf ho hf hcov false semL2n_buf1 a ha hS
+
 /-! ## (2d) string level: pattern strings in, result strings out (generated `interpret` and render tables)
 
 `laneRun ofCode semL tbl net order strip stim` = the ONE-LANE simulation of one stimulus pattern (`stim[q]` = lane value at `s_nodes`
@@ -342,6 +363,18 @@ example : simStr4 [10] C01.demoNet demoOrder false demoPats =
     some ("--1\n--1\n--1\n--0\n--X\n--1\n--X\n--X\n--0\n--1\n--X".toList.map Char.toNat) := by decide +kernel
 example : simStr2 [10] C01.demoNet demoOrder false demoPats =
     some ("--1\n--1\n--1\n--0\n--0\n--1\n--0\n--1\n--0\n--1\n--1".toList.map Char.toNat) := by decide +kernel
+/-- hypotheses of (2a)–(2e) on the demo objects: the array the strings denote is well-formed of shape `(S, 11)`; position 2 (the output
+    port) is captured, positions 0, 1 (input ports) are not; pattern 6 of the 11-pattern array = pattern 0 of the one-pattern array;
+    fork conventions and capture drivers hold -/
+def demoArr : Arr Nat := ⟨[3], 11, [[0, 0, 3, 3, 1, 0, 5, 5, 7, 4, 2], [0, 3, 0, 3, 3, 1, 3, 6, 3, 3, 3], [2, 2, 2, 2, 2, 2, 2, 2, 2, 1, 2]]⟩
+example : mvarray Gen.interpretAscii demoPats = some demoArr ∧ demoArr.wf = true ∧ demoArr.lead = [C01.demoNet.sNodes.length] ∧
+    2 ≤ demoPats.length ∧ C01.demoNet.sNodes.length ≠ 1 ∧
+    isPoppo C01.demoNet 2 = true ∧ isPoppo C01.demoNet 0 = false ∧ (sNodeAt C01.demoNet 2).inPin 0 = some 5 ∧
+    demoArr.rows.map (·.getD 6 0) = (⟨[3], 1, [[5], [3], [2]]⟩ : Arr Nat).rows.map (·.getD 0 0) ∧
+    forksOKB C01.demoNet demoOrder = true ∧ capDriversB C01.demoNet demoOrder = true := by decide +kernel
+example : sim8 C01.demoNet demoOrder false demoArr = some ⟨[3], 11,
+    [[2, 2, 2, 2, 2, 2, 2, 2, 2, 2, 2], [2, 2, 2, 2, 2, 2, 2, 2, 2, 2, 2], [3, 3, 3, 0, 1, 3, 6, 7, 4, 7, 1]]⟩ ∧
+    sim8 C01.demoNet demoOrder true demoArr = sim8 C01.demoNet demoOrder false demoArr := by decide +kernel
 /-- the array the eleven strings denote, and the bytes assigned to `s[0]` (three rows of three planes of two bytes) -/
 example : (mvarray Gen.interpretAscii demoPats).map mvToBp = some ⟨[3, 3], 2,
     [[0xdc, 0x01], [0x0c, 0x05], [0xc0, 0x03], [0x7a, 0x07], [0xda, 0x07], [0x80, 0x00],
@@ -430,6 +463,8 @@ theorem cycle_patterns_end_to_end2 (nb : Nat) (net : Net) (order : List Nat) (hw
     three planes of `s[0]`'s state row are the copied `s[1]` row (plane 1 = plane 0, plane 2 as the constructor left it) -/
 def demoSeqSt : StB (BitVec (8 * 2)) :=
   ⟨fun _ => 0, [[[0x55, 0x05], [0x55, 0x05], [0, 0]], freshRow 2, [[0, 0], [0, 0], [0, 0]]], List.replicate 3 (freshRow 2)⟩
+example : C01.demoSeq.wfB = true ∧ orderOKB C01.demoSeq [0, 1, 2, 3, 4, 5, 6] = true ∧
+    demoSeqSt.s0.length = C01.demoSeq.sNodes.length ∧ demoSeqSt.s1.length = C01.demoSeq.sNodes.length := by decide +kernel
 def demoSeqRun (k : Nat) : StB (BitVec (8 * 2)) :=
   cycleKB (codec2 2) (fun op => semW2 2 op.code) (sigOps Gen.kindPrefixes C01.demoSeq [0, 1, 2, 3, 4, 5, 6] false)
     (tabsOf C01.demoSeq false) k demoSeqSt
